@@ -69,6 +69,7 @@ ExprS(x) == <<"(ExprStmt">> \o x \o <<")">>
 Ret(xs) == <<"(ReturnStmt">> \o Lst(xs) \o <<")">>
 FuncLitX(typ, body) == <<"(FuncLit">> \o typ \o body \o <<")">>
 Paren(x) == <<"(ParenExpr">> \o x \o <<")">>
+Idx(x, i) == <<"(IndexExpr">> \o x \o i \o <<")">>
 IntT == Id("int")
 \* func(z int) int
 FTii == FT(FL(Fld(Id("z"), IntT)), FL(Fld(<<>>, IntT)))
@@ -127,6 +128,10 @@ ExprProds ==
         Prd("sel", "AI", 7, 1, Sel(<<H("PT", 7)>>, "B"), <<H("PT", 7), G, ".", G, "B">>),
         Prd("index", "AI", 7, 1, <<"(IndexExpr", H("L", 7), H("I", 1), ")">>, <<H("L", 7), G, "[", G, H("I", 1), G, "]">>),
         Prd("index", "LV", 7, 1, <<"(IndexExpr", H("M", 7), H("S", 1), ")">>, <<H("M", 7), G, "[", G, H("S", 1), G, "]">>),
+        Prd("index", "I", 7, 1, Idx(Id("mk"), CLit(Id("T"), <<H("I", 1), H("I", 1)>>)),
+            <<"mk", G, "[", G, "T", G, "{", G, H("I", 1), G, ",", H("I", 1), G, "}", G, "]">>),
+        Prd("index", "I", 7, 1, Idx(Id("mk"), CLit(Id("T"), KV(Id("A"), <<H("I", 1)>>))),
+            <<"mk", G, "[", G, "T", G, "{", G, "A", G, ":", H("I", 1), G, "}", G, "]">>),
         Prd("index", "T", 7, 1, <<"(IndexExpr", H("LT", 7), H("I", 1), ")">>, <<H("LT", 7), G, "[", G, H("I", 1), G, "]">>),
         Prd("slice", "L", 7, 1, <<"(SliceExpr", H("L", 7), H("I", 1), H("I", 1), "nil", ")">>,
             <<H("L", 7), G, "[", G, H("I", 1), G, ":", G, H("I", 1), G, "]">>),
@@ -228,7 +233,6 @@ IncDec(tok, x) == <<"(IncDecStmt", tok>> \o x \o <<")">>
 Bin(op, x, y) == <<"(BinaryExpr", op>> \o x \o y \o <<")">>
 Un(op, x) == <<"(UnaryExpr", op>> \o x \o <<")">>
 TA(x, t) == <<"(TypeAssertExpr">> \o x \o t \o <<")">>
-Idx(x, i) == <<"(IndexExpr">> \o x \o i \o <<")">>
 DeclS(tok, grp, specs) == <<"(DeclStmt", "(GenDecl", tok>> \o grp \o Lst(specs) \o <<")", ")">>
 VSpec(names, typ, vals) == <<"(ValueSpec">> \o Lst(names) \o typ \o Lst(vals) \o <<")">>
 TSpec(name, alias, typ) == <<"(TypeSpec">> \o Id(name) \o <<"nil">> \o alias \o typ \o <<")">>
@@ -261,6 +265,12 @@ StmtProdsFor(X) ==
            <<"if", H("B", 1)>> \o BodyTk(X) \o <<"else", "if", H("B", 1)>> \o BodyTk(X) \o <<"else">> \o BodyTk(X)),
         S1("if", X, IfS(Asg(":=", Id("#z"), <<H("I", 1)>>), Bin(">", Id("#z"), <<H("I", 4)>>), BodySx(X), NIL),
            <<"if", "#z", ":=", H("I", 1), G, ";", "#z", ">", H("I", 4)>> \o BodyTk(X))}
+  \cup {S1("if", X, IfS(NIL, Bin(">", Idx(Id("mk"), CLit(Id("T"), <<H("I", 1), H("I", 1)>>)), <<H("I", 4)>>), BodySx(X), NIL),
+           <<"if", "mk", G, "[", G, "T", G, "{", G, H("I", 1), G, ",", H("I", 1), G, "}", G, "]", ">", H("I", 4)>> \o BodyTk(X)),
+        S1("for", X, ForS(NIL, Bin(">", Idx(Id("mk"), CLit(Id("T"), KV(Id("A"), <<H("I", 1)>>))), <<H("I", 4)>>), NIL, BodySx("f")),
+           <<"for", "mk", G, "[", G, "T", G, "{", G, "A", G, ":", H("I", 1), G, "}", G, "]", ">", H("I", 4)>> \o BodyTk("f")),
+        S1("switch", X, <<"(SwitchStmt", "nil">> \o Idx(Id("mk"), CLit(Id("T"), <<H("I", 1), H("I", 1)>>)) \o Blk(Case(<<>>, <<H(SLn(InSw(X)), 0)>>)) \o <<")">>,
+           <<"switch", "mk", G, "[", G, "T", G, "{", G, H("I", 1), G, ",", H("I", 1), G, "}", G, "]", "{", NL, "default", G, ":", NL, H(SLn(InSw(X)), 0), NL, "}">>)}
   \cup {S1("for", X, ForS(NIL, NIL, NIL, BodySx("f")), <<"for">> \o BodyTk("f")),
         S1("for", X, ForS(NIL, <<H("B", 1)>>, NIL, BodySx("f")), <<"for", H("B", 1)>> \o BodyTk("f")),
         S1("for", X, ForS(Asg(":=", Id("#z"), Lit("INT", "0")), Bin("<", Id("#z"), <<H("I", 4)>>), IncDec("++", Id("#z")), BodySx("f")),
@@ -527,8 +537,8 @@ DeclProds ==
 (* Spelling variants of literals (focus e): every Go literal class and the spellings that are     *)
 (* special to XGo (`$` inside strings: XGo pre-parses "${..}").                                   *)
 LitI == {"0x1F", "0b101", "0o17", "017", "1_000", "'a'", "'\\n'", "'\\x41'", "'\\''"}
-LitF == {"1.5", "1e3", ".5", "0x1p-2", "1_0.2_5", "1E+2"}
-LitC == {"1i", "1.5e+3i", "0x1p-2i", "0b1i"}
+LitF == {"1.5", "1e3", ".5", "0x1p-2", "1_0.2_5", "1E+2", "09.5", "0129.", "08e1"}   \* leading 0 + digits 8/9: decimal floats
+LitC == {"1i", "1.5e+3i", "0x1p-2i", "0b1i", "08i", "0129i", "0123i", "089.5i", "0o17i"}   \* `08i`, `0123i` are DECIMAL imaginaries
 LitS == {"\"a b\"", "`raw`", "\"\\\"q\\\"\"", "\"a\\tb\"", "`a\\b`", "\"$\"", "\"$$\"", "\"${a}\"", "\"${\"", "\"${a\"", "\"$a${b}\"", "\"a$\"",
          "\"${a b}\"", "`${a`", "\"$x\"", "\"100%\"", "\"\""}
 KindOfI(v) == IF v \in {"'a'", "'\\n'", "'\\x41'", "'\\''"} THEN "CHAR" ELSE "INT"
